@@ -274,6 +274,9 @@ func (r *Config) UnmarshalCBOR(data []byte) (err error) {
 	return nil
 }
 
+// a stored share table that lists a party twice is refused rather than merged
+var noDupKeys, _ = cbor.DecOptions{DupMapKey: cbor.DupMapKeyEnforcedAPF}.DecMode()
+
 // UnmarshalCBOR decodes a stored TaprootConfig and refuses material that cannot be a key share.
 func (r *TaprootConfig) UnmarshalCBOR(data []byte) (err error) {
 	defer func() {
@@ -281,7 +284,7 @@ func (r *TaprootConfig) UnmarshalCBOR(data []byte) (err error) {
 			err = fmt.Errorf("config: malformed encoding: %v", p)
 		}
 	}()
-	if err = cbor.Unmarshal(data, (*taprootConfigAlias)(r)); err != nil {
+	if err = noDupKeys.Unmarshal(data, (*taprootConfigAlias)(r)); err != nil {
 		return err
 	}
 	if r.PrivateShare == nil {
